@@ -20,10 +20,44 @@ type cfg struct {
 	ratio   int
 	prime   uint64        // shard count of the sharded variants (0 = package default)
 	keys    []interface{} // model key i = keys[i]
+	// constructor histories: noRatio = the constructor gets NO WithRwRatio (the map must then have DefaultRWRatio, which is
+	// what ratio is set to); viaOptions = the case term computes its rwRatio in Coq from the option list actually passed;
+	// preRatio = the rwRatio given explicitly to the constructor call before this one (0: none) - only for the replay
+	noRatio, viaOptions bool
+	preRatio            int
 }
 
+const defaultRWRatio = 10 // the documented semap.DefaultRWRatio; deliberately NOT read from the package
+
+// optsCoq is the option list passed to the constructor, as a Coq term of type list opt
+func (c cfg) optsCoq() string {
+	var o []string
+	if !c.noRatio {
+		o = append(o, fmt.Sprintf("WithRwRatio %d", c.ratio))
+	}
+	if c.prime > 0 {
+		o = append(o, fmt.Sprintf("WithPrime %d", c.prime))
+	}
+	return "[" + strings.Join(o, "; ") + "]"
+}
+
+func (c cfg) sizeCoq() string {
+	if c.viaOptions {
+		return "(o_ratio (options " + c.optsCoq() + "))"
+	}
+	return strconv.Itoa(c.ratio)
+}
+
+// lastExplicit is the rwRatio most recently given explicitly to a constructor in this process (for replays of
+// default-built maps)
+var lastExplicit int
+
 func (c cfg) newMap() semap.SemMapper {
-	opts := []semap.Option{semap.WithRwRatio(c.ratio)}
+	var opts []semap.Option
+	if !c.noRatio {
+		lastExplicit = c.ratio
+		opts = append(opts, semap.WithRwRatio(c.ratio))
+	}
 	if c.prime > 0 {
 		opts = append(opts, semap.WithPrime(c.prime))
 	}
@@ -140,6 +174,9 @@ type runner struct {
 }
 
 func newRunner(cf cfg) *runner {
+	if cf.noRatio && cf.preRatio == 0 {
+		cf.preRatio = lastExplicit
+	}
 	return &runner{cf: cf, m: cf.newMap(), callers: map[int]*caller{}, nextTid: 1}
 }
 
@@ -453,13 +490,29 @@ func (r *runner) replayArg() string {
 	for i, o := range r.trace {
 		ls[i] = o.l.String()
 	}
-	return fmt.Sprintf("%d,%d,%d|%s|%s", r.cf.variant, r.cf.ratio, r.cf.prime, strings.Join(ks, ";"), strings.Join(ls, ","))
+	ratio := r.cf.ratio
+	pre := ""
+	if r.cf.noRatio {
+		ratio = 0 // 0 = built without WithRwRatio
+	}
+	if r.cf.preRatio > 0 {
+		pre = fmt.Sprintf("pre%d!", r.cf.preRatio) // a map with this explicit ratio is constructed first
+	}
+	return fmt.Sprintf("%s%d,%d,%d|%s|%s", pre, r.cf.variant, ratio, r.cf.prime, strings.Join(ks, ";"), strings.Join(ls, ","))
 }
 
 func parseCfg(head, keys string) (cfg, error) {
 	var cf cfg
+	if i := strings.Index(head, "!"); i >= 0 && strings.HasPrefix(head, "pre") {
+		cf.preRatio, _ = strconv.Atoi(head[3:i])
+		head = head[i+1:]
+		semap.NewSemMap(semap.WithRwRatio(cf.preRatio)) // the earlier, differently configured constructor call
+	}
 	if _, err := fmt.Sscanf(head, "%d,%d,%d", &cf.variant, &cf.ratio, &cf.prime); err != nil {
 		return cf, err
+	}
+	if cf.ratio == 0 {
+		cf.noRatio, cf.viaOptions, cf.ratio = true, true, defaultRWRatio
 	}
 	for _, s := range strings.Split(keys, ";") {
 		k, err := parseKey(s)
@@ -544,12 +597,12 @@ func emitSched(e *vh.Env, r *runner, class string) {
 		ks[i] = keyStr(k)
 	}
 	e.Emit(vh.Case{
-		Coq:        fmt.Sprintf("Sched %d %d [%s]", r.cf.ratio, len(r.cf.keys), strings.Join(steps, ";\n ")),
+		Coq:        fmt.Sprintf("Sched %s %d [%s]", r.cf.sizeCoq(), len(r.cf.keys), strings.Join(steps, ";\n ")),
 		Class:      class,
 		Nontrivial: contended,
 		Replay:     r.replayArg(),
 		Desc: map[string]interface{}{"container": variantNames[r.cf.variant], "rwRatio": r.cf.ratio, "shards": r.cf.prime,
-			"keys": ks, "steps": desc},
+			"constructor_options": r.cf.optsCoq(), "explicit_ratio_of_the_previous_constructor_call": r.cf.preRatio, "keys": ks, "steps": desc},
 	})
 }
 
